@@ -142,6 +142,11 @@ impl MinidumpWriter {
     /// Generates a minidump and writes to the destination provided. Returns the in-memory
     /// version of the minidump as well.
     pub fn dump(&mut self, destination: &mut (impl Write + Seek)) -> Result<Vec<u8>> {
+        // A writer can be used for several dumps: what was recorded while writing
+        // an earlier one must not end up in this one
+        self.memory_blocks.clear();
+        self.crashing_thread_context = CrashingThreadContext::None;
+
         let auxv = self
             .direct_auxv_dump_info
             .clone()
